@@ -76,6 +76,26 @@ pub fn crumb(what: &str, bytes: &[u8]) {
     });
 }
 
+/// As `crumb`, for a textual input (a TLC vector): one positioned write of a fixed-size record per call, nothing else
+/// (this runs once per vector, millions of times in the codec lanes).
+pub fn crumb_text(_what: &str, text: &str) {
+    use std::os::unix::fs::FileExt;
+    thread_local! {
+        static F: Option<std::fs::File> = std::env::var("VERIF_CRUMB").ok()
+            .and_then(|p| std::fs::OpenOptions::new().create(true).write(true).truncate(true).open(p + ".txt").ok());
+    }
+    F.with(|f| {
+        if let Some(f) = f {
+            let mut rec = [b' '; 1024];
+            let b = text.as_bytes();
+            let n = b.len().min(1023);
+            rec[..n].copy_from_slice(&b[..n]);
+            rec[1023] = b'\n';
+            let _ = f.write_at(&rec, 0);
+        }
+    });
+}
+
 pub fn silence_panics() {
     std::panic::set_hook(Box::new(|_| {}));
 }
